@@ -175,7 +175,16 @@ func runC12(r *core.Run) {
 		default:
 			what := []string{"ca", "keys", "all"}[opKind-7]
 			desc = "wipeout(" + what + ")"
+			if a.Disk != nil && cfg.CA == "gcsca" && what != "keys" && r.Chance(20, "storage-wipeout-refused?") {
+				// the one fault of this check: the store refuses the wipeout. A wipeout that then
+				// reports success has to have left nothing usable all the same.
+				a.Disk.WipeoutRefused = true
+				desc = "wipeout(" + what + ", storage refuses)"
+			}
 			err, _ = a.Wipeout(what, f)
+			if a.Disk != nil {
+				a.Disk.WipeoutRefused = false
+			}
 			if err == nil {
 				made = "wipe:" + what
 			}
